@@ -288,11 +288,11 @@ def run(ctx):
         for gen in ("RemoraRules.lean", "RemoraOpt.lean"):
             gp = os.path.join(core.LEAN, "SharkVerif", "Gen", gen)
             if os.path.exists(gp):
-                missing = [t for t in re.findall(r"^theorem (\\S+)", open(gp).read(), re.M) if t not in audited]
+                missing = [t for t in re.findall(r"^theorem (\S+)", open(gp).read(), re.M) if t not in audited]
                 if missing:
                     ctx.broken("audit", "unaudited:" + gen, f"generated theorems without an audit line: {missing[:5]}")
     try:
-        ctx.cov["rules_in_generated_optimiser"] = int(re.search(r"genOptRuleCount : Nat := (\\d+)", open(os.path.join(
+        ctx.cov["rules_in_generated_optimiser"] = int(re.search(r"genOptRuleCount : Nat := (\d+)", open(os.path.join(
             core.LEAN, "SharkVerif", "Gen", "RemoraOpt.lean")).read()).group(1))
     except Exception:
         pass
